@@ -213,7 +213,7 @@ def seed_positions(prog, r):
                     out.append(("not-imported-in-interface", variant(ins(spec_at, blk)), name, [spec_at + 2], n_, s.depth + 2))
                 # 5 type defined in the project but not accessible here
                 cands = [t for t in prog.ents if t.kind == "type" and t.name.lower() not in acc and t.scope is not None and t.scope.kind == "module"
-                         and not fws.leak_through_private_module(sc, t)
+                         and not fws.leak_through_private_module(sc, t, name=t.name)
                          and not (t.vis == "private" or (t.vis is None and t.scope.default_private))]
                 if cands:
                     t = sorted(cands, key=lambda x: x.id)[0]
